@@ -56,6 +56,7 @@ def install_shuffle() -> None:
 
 
 install_shuffle()
+warnings.simplefilter('ignore')
 
 # ---------------------------------------------------------------- printing
 
@@ -253,6 +254,7 @@ def queries(s: State) -> str:
 
 # ---------------------------------------------------------------- logging hook
 _SINK: list[list[str] | None] = [None]
+_MONS: list[list] = [[]]
 _orig_update = State._update
 
 
@@ -261,6 +263,8 @@ def _wrapped_update(self, operation=None):
     if operation is not None and _SINK[0] is not None:
         _SINK[0].append('L ' + p_operation(operation))
         _SINK[0].append('D ' + digest(self))
+        for m in _MONS[0]:
+            m.after_log(self, operation)
 
 
 State._update = _wrapped_update
@@ -351,7 +355,9 @@ def construct(kw: dict) -> State:
 class Session:
     """One hand on the real implementation, producing the expected driver output."""
 
-    def __init__(self, kw: dict, extra: dict):
+    def __init__(self, kw: dict, extra: dict, monitors=()):
+        self.monitors = list(monitors)
+        self.nlog_before = 0
         self.kw = kw
         self.extra = extra
         self.warnerr = bool(extra.get('warnerr', False))
@@ -366,6 +372,7 @@ class Session:
         _SEED[0] = self.extra['seed']
         sink: list[str] = []
         _SINK[0] = sink
+        _MONS[0] = self.monitors
         err = None
         warned = False
         try:
@@ -379,6 +386,7 @@ class Session:
                 warned = len(rec) > 0
         finally:
             _SINK[0] = None
+            _MONS[0] = []
         return res, err, warned, sink
 
     def init(self):
@@ -392,9 +400,13 @@ class Session:
             self.expect.append('D *')
             self.expect.append('.')
             self.state = None
+            for m in self.monitors:
+                m.after_init(self, err)
             return err
         self.state = res
         self._finish(None, warned, True)
+        for m in self.monitors:
+            m.after_init(self, None)
         return None
 
     def _finish(self, err, warned, with_q):
@@ -411,13 +423,18 @@ class Session:
                 self.expect.append('Q ' + queries(s))
         self.expect.append('.')
 
-    def op(self, line: str):
+    def op(self, line: str, valid: bool = False):
         """`line` is the driver op text, e.g. 'cbr 120' or 'deal_hole AsKd 2'."""
         s = self.state
         self.script.append('op ' + line)
+        self.nlog_before = len(s.operations)
+        for m in self.monitors:
+            m.before_op(self, line)
         res, err, warned, sink = self._run(lambda: call_op(s, line))
         self.expect += sink
         self._finish(err, warned, True)
+        for m in self.monitors:
+            m.after_op(self, line, err, valid)
         return err
 
     def can(self, line: str):
@@ -538,3 +555,86 @@ def call_can(s: State, line: str):
     if name == 'noop':
         return s.can_no_operate()
     raise KeyError(name)
+
+
+# ---------------------------------------------------------------- replay of a stored script
+def kw_from_script(lines: list[str]):
+    """Rebuild the State constructor arguments and the `extra` dict from driver cfg lines."""
+    from pokerkit import Deck  # noqa: F401
+    d: dict = {'streets': []}
+    extra: dict = {}
+    rake_t = (0, 1, None, False)
+    objs: dict[int, Street] = {}
+    for ln in lines:
+        t = ln.split(' ')
+        k = t[0]
+        if k == 'n':
+            d['player_count'] = int(t[1])
+        elif k == 'mode':
+            d['mode'] = Mode.TOURNAMENT if t[1] == 'T' else Mode.CASH_GAME
+        elif k == 'boards':
+            d['starting_board_count'] = int(t[1])
+        elif k == 'bs':
+            d['betting_structure'] = {v: kk for kk, v in BS.items()}[t[1]]
+        elif k == 'trim':
+            d['ante_trimming_status'] = t[1] == '1'
+        elif k == 'warnerr':
+            extra['warnerr'] = t[1] == '1'
+        elif k == 'bringin':
+            d['bring_in'] = int(t[1])
+        elif k == 'seed':
+            extra['seed'] = int(t[1])
+        elif k == 'divchunk':
+            extra['divchunk'] = int(t[1])
+        elif k == 'rake':
+            rake_t = (int(t[1]), int(t[2]), None if t[3] == 'inf' else int(t[3]), t[4] == '1')
+            extra['rake_line'] = (t[1], t[2], t[3], t[4])
+        elif k == 'autos':
+            d['automations'] = tuple(AUTOS[int(x)] for x in t[1:] if x != '')
+        elif k == 'deck':
+            d['deck'] = tuple(c for x in t[1:] for c in Card.parse(x))
+        elif k == 'htypes':
+            d['hand_types'] = tuple(HAND_TYPES[x] for x in t[1:] if x != '')
+        elif k == 'street':
+            ident = int(t[1])
+            if ident in objs and len(d['streets']) > ident:
+                d['streets'].append(objs[ident])
+            else:
+                st = Street(t[2] == '1', tuple(c == 'U' for c in t[3]) if t[3] != '-' else (),
+                            int(t[4]), t[5] == '1', OPENINGS[int(t[6])], int(t[7]),
+                            None if t[8] == 'none' else int(t[8]))
+                objs[len(d['streets'])] = st
+                d['streets'].append(st)
+        elif k == 'antes':
+            d['raw_antes'] = tuple(int(x) for x in t[1:] if x != '')
+        elif k == 'blinds':
+            d['raw_blinds_or_straddles'] = tuple(int(x) for x in t[1:] if x != '')
+        elif k == 'stacks':
+            d['raw_starting_stacks'] = tuple(int(x) for x in t[1:] if x != '')
+    d['streets'] = tuple(d['streets'])
+    d['rake'] = make_rake(*rake_t)
+    d['divmod'] = make_divmod(extra.get('divchunk', 1))
+    return d, extra
+
+
+def replay_script(lines: list[str], monitors=(), valid_flags=None):
+    """Run a stored script (cfg lines, `init`, `op …`, `can …`) on the implementation."""
+    kw, extra = kw_from_script(lines)
+    sess = Session(kw, extra, monitors)
+    sess.script = [ln for ln in lines if not ln.startswith(('op ', 'can ', 'init', 'case '))]
+    k = 0
+    for ln in lines:
+        if ln == 'init':
+            if sess.init() is not None:
+                break
+        elif ln.startswith('op '):
+            v = bool(valid_flags[k]) if valid_flags is not None and k < len(valid_flags) else False
+            k += 1
+            e = sess.op(ln[3:], valid=v)
+            if e is not None and type(e).__name__ not in ('ValueError', 'UserWarning'):
+                break
+        elif ln.startswith('can '):
+            sess.can(ln[4:])
+    for m in sess.monitors:
+        m.at_end(sess)
+    return sess
